@@ -23,7 +23,7 @@ COMMON_TRUST = ('Trusted: Verus/Z3/rustc; the extractor/assembler (round-trip ch
 
 PLAN = {
     'C01': {
-        'bounded': ['phonetic_api', 'fixed_api', 'fixed_rules', 'user_files', 'suffix_forms'], 'static': ['context_glue'], 'kani': ['k_keycode_to_char'],
+        'bounded': ['phonetic_api', 'fixed_api', 'fixed_rules', 'user_files', 'suffix_forms', 'ansi'], 'static': ['context_glue'], 'kani': ['k_keycode_to_char'],
         'data': ['tables'],
         'level': 'proof', 'safety': True,
         'units': ['fixed_pkv_common', 'fixed_reph', 'fixed_session', 'layout', 'layout_get', 'rank', 'util', 'phon', 'pmeth', 'data', 'split', 'fixed_search'],
@@ -58,7 +58,7 @@ PLAN = {
     'C05': {
         'bounded': ['history_independence', 'learn_recall', 'update_engine'], 'static': ['no_shared_state'],
         'level': 'proof',
-        'units': ['phon', 'pmeth', 'split'],
+        'units': ['phon', 'pmeth', 'split', 'data'],
         'technique': 'Verus: memo invariants (transparent, keys split-stable, prefixes memoised) + spec-level lemma list == ph_list_text(text, ...) independent of the memo',
         'claim': 'Proof of history independence for the candidate texts and their order: (1) every memo entry is the direct-candidate list of its key, every key is a split-stable word part, the memo only grows by the word part of the current text and is cleared when the user list is reloaded; (2) PhoneticMethod keeps the invariant that the word part of every non-empty prefix of the composition is memoised (preserved by key, backspace; trivially true when idle); (3) spec-level lemma: under (1)+(2) a split point of the word is memoised iff its base is itself a split-stable word part -- a property of the text -- hence list == ph_list_text(text, config, data, user list), a function that does not mention the memo; get_suggestion and backspace_event are proved to return exactly that list, and the preselected index is proved to be rv_first_index of the learned-or-derived text in it (a function of text and learned selections).',
         'note': COMMON_TRUST + 'include_from_dictionary is T2 (assumed contract); split and search_corrected are proved (units split, phon); sort assumed to be a function of the ranked values; "other contexts in the same process" rests on safe Rust aliasing + the scan for process-wide state.',
@@ -66,7 +66,7 @@ PLAN = {
     'C06': {
         'bounded': ['fixed_rules', 'fixed_api'], 'static': ['context_glue'],
         'level': 'proof',
-        'units': ['fixed_session', 'fixed_pkv_common', 'pmeth', 'rank'],
+        'units': ['fixed_session', 'fixed_pkv_common', 'pmeth', 'rank', 'phon'],
         'technique': 'Verus postconditions: reset state after terminating events, truthful session flag, strictly decreasing measure, wf invariant (idle => no raw keys; scratch list overwritten before read)',
         'claim': 'Proof for both methods that commit, finish, ctrl-backspace and any backspace returning an empty suggestion leave the abstract state of a new context, that the session flag is exactly "composition non-empty or a sign waiting", that an idle backspace changes nothing, that every backspace strictly decreases a measure, that non-empty pre-edit implies an open session, and that the scratch list read by later events is a function of the current text only.',
         'note': COMMON_TRUST + 'Equality with a new context is at the level of the abstract state (buffer, raw keys, waiting sign; memo transparent by C05).',
@@ -112,7 +112,7 @@ PLAN = {
         'note': COMMON_TRUST + 'Layout switch and storing the new config happen in src/context.rs (pinned glue); an edit that does not advance the modification time is invisible by design (mtime granularity); assumption: no existing file is dated exactly the Unix epoch (the code\'s own "no file" marker); Data::new is proved to load the three tables of the data directory whatever the options are (update_engine never reloads them); the bounded check update_engine additionally compares every ordered pair of a five-configuration family (phonetic with / without suggestions, Probhat with the number pad on / off, synthetic layout) against a new context.',
     },
     'C12': {
-        'bounded': ['fixed_rules'],
+        'bounded': ['fixed_rules', 'update_engine'],
         'level': 'proof',
         'units': ['fixed_pkv_off', 'fixed_session'],
         'technique': 'Verus contracts on the extracted real process_key_value vs a rule-chain spec function c12()',
@@ -120,7 +120,7 @@ PLAN = {
         'note': COMMON_TRUST + 'The transcription of the statement into c12() is hand-written.',
     },
     'C13': {
-        'bounded': ['reph', 'backspace_step'],
+        'bounded': ['reph', 'backspace_step', 'update_engine'],
         'level': 'proof',
         'units': ['fixed_reph', 'fixed_pkv_off', 'fixed_pkv_common'],
         'technique': 'Verus loop invariant tying the real right-to-left scan to a recursive scan spec; conservation postcondition; dispatch clauses',
@@ -128,7 +128,7 @@ PLAN = {
         'note': COMMON_TRUST + 'internal_backspace_step (chars().rev().take(n).fold(closure) + truncate) is proved in the same unit against `drop the last min(n, len) code points` (std contracts for Take::fold with a closure, String::len and String::truncate in UTF-8 byte offsets are T3 axioms; the bounded check backspace_step stays as a cross-check of them); well-formedness used by the placement clause: every hasanta follows a consonant; joiners are not part of a conjunct (literal reading of the statement).',
     },
     'C14': {
-        'bounded': ['fixed_rules', 'fixed_api'],
+        'bounded': ['fixed_rules', 'fixed_api', 'update_engine'],
         'level': 'proof',
         'units': ['fixed_pkv_on', 'fixed_session'],
         'technique': 'Verus: process_key_value with the option on == transition function step_on (pending-sign state machine); termination; session/backspace clauses',
@@ -136,7 +136,7 @@ PLAN = {
         'note': COMMON_TRUST + 'The word-level theorem covers key values of one code point each and consonants of the explicit consonant set; fused layout values and words that start right after a hasanta are only in the bounded check fixed_rules (typewriter-order vs Unicode-order typing of syllable words); the ra + zo-fola defect found this way is repaired in /repo (known_findings.json).',
     },
     'C15': {
-        'bounded': ['fixed_api'], 'data': ['tables'],
+        'bounded': ['fixed_api', 'update_engine'], 'data': ['tables'],
         'level': 'proof',
         'units': ['fixed_session', 'fixed_search', 'data'],
         'technique': 'Verus: functional postcondition list == fx_list(text, raw keys, options, data) for create_dictionary_suggestion, with lemma 1 <= len <= 9',
@@ -144,7 +144,7 @@ PLAN = {
         'note': COMMON_TRUST + 'search_dictionary and clean_string are PROVED in unit fixed_search on the real body (fx_dict is defined as sd_list: the words of the first-letter table, in table order, that the pattern ^<cleaned key>[letters]{0,n}$ matches, each as Other(form, 10 x edit distance from the typed word), form = non-joiner before every u / uu / ri sign with traditional joining); lemma_sd_list_sound: every such candidate is a dictionary word that begins with the typed word once the ignored punctuation is removed.  Assumed there (T3): the regex crate (a cleaned key gives a pattern that compiles; a match of the anchored pattern has the key as a prefix -- stated for the pinned format string only), the edit-distance crate, Vec::extend over a Map drains it and applies the closure in order, chars().any as a same-bodied wrapper; data precondition: 10 x distance of a hit fits u8.  The bounded check fixed_api stays as an independent cross-check of these assumptions (regex-special punctuation inside the word, hasanta-final words); ordering rests on one axiom about std sort_unstable (sorted permutation w.r.t. the proved comparator key; nothing assumed about ties) + data preconditions (distance <= 25, at most nine emoji per Bengali name).',
     },
     'C16': {
-        'bounded': ['ansi', 'fixed_api', 'phonetic_api', 'update_engine'],
+        'bounded': ['ansi', 'fixed_api', 'phonetic_api', 'update_engine'], 'ffi_native': ['ffi_life_cycles_native'],
         'level': 'proof',
         'units': ['rank', 'fixed_session', 'phon', 'pmeth'],
         'technique': 'Verus: ANSI clauses of the list functions, get_pre_edit_text == bijoy(candidate) / candidate, option getter',
